@@ -41,7 +41,10 @@ pub fn check_stream(ls: &LangSet, code: &str, toks: &[IdTok]) -> Verdict {
     let api = ls.api(code);
     crate::api::nt_log_start();
     let f0 = api.find(toks, 0.0);
-    let asked = crate::api::nt_log_take();
+    let mut asked = crate::api::nt_log_take();
+    crate::api::nt_log_start();
+    let _ = api.find_iter_steps(toks, 0.0, 1);
+    asked.extend(crate::api::nt_log_take());
     let mut v = Verdict { n_f0: f0.len(), hints: toks.iter().filter(|t| t.sep || t.nan).count(), max_lookahead: 0, failure: None };
     // 0. whenever the scanner asks a token whether it is unrelated to "the previous one", the token it presents must be the
     // predecessor in the stream (the nearest earlier token that is not whitespace or a lone hyphen): hints computed from
